@@ -16,10 +16,10 @@ import (
 
 // One line per history source. Each Next must be a pure function of r.
 func init() {
-	register(Source{Name: "splice", Weight: 12,
+	register(Source{Name: "splice", Weight: 10,
 		Next:  func(r *rand.Rand) (prog.History, bool) { h, _ := splicegen.Load().Next(r); return h, true },
 		Stats: func() map[string]any { return splicegen.Load().Stats() }})
-	register(Source{Name: "grammar", Weight: 6, Next: splicegen.Grammar, Stats: splicegen.GrammarStats})
+	register(Source{Name: "grammar", Weight: 10, Next: splicegen.Grammar, Stats: splicegen.GrammarStats})
 	// generators of the other groups (histories with their own reference models; here only executed and compared)
 	register(Source{Name: "storgen-containers", Weight: 1, Next: func(r *rand.Rand) (prog.History, bool) {
 		return storgen.GenContHistory(storgen.FromRand(r), storgen.ContGenConfig{MaxExecs: 5}).History(), true
